@@ -29,6 +29,7 @@ Anything else raises TieBroken; nothing is guessed.
 import ast
 
 from .pyexpr import TieBroken, find_class, find_func, strip_doc, sha
+from .normalize import parse_file, parse as norm_parse
 
 OUT = 'Serial.lean'
 
@@ -262,7 +263,7 @@ if events is not None:
 
 def history_schema(repo, hashes):
     src = (repo / F_HISTORY).read_text()
-    cls = find_class(ast.parse(src), 'BoboHistory')
+    cls = find_class(norm_parse(src, str(F_HISTORY)), 'BoboHistory')
     for name in ('to_json_dict', 'to_json_str', 'from_json_str', 'from_json_dict', '__init__'):
         hashes[f'{F_HISTORY}::BoboHistory.{name}'] = sha(ast.get_source_segment(src, find_func(cls, name)))
     if unparse_body(find_func(cls, 'to_json_dict').body) != HIST_TO:
@@ -299,7 +300,7 @@ def history_schema(repo, hashes):
 
 def factory_schema(repo, hashes, tags):
     src = (repo / F_FACTORY).read_text()
-    cls = find_class(ast.parse(src), 'BoboEventFactory')
+    cls = find_class(norm_parse(src, str(F_FACTORY)), 'BoboEventFactory')
     fn = find_func(cls, 'from_json_str')
     hashes[f'{F_FACTORY}::BoboEventFactory.from_json_str'] = sha(ast.get_source_segment(src, fn))
     body = [s for s in strip_doc(fn.body) if not isinstance(s, ast.ImportFrom)]
@@ -346,8 +347,7 @@ return (plaintext[:ix_delim[0]], plaintext[ix_delim[0] + 1:ix_delim[1]], int(pla
 
 
 def wire_schema(repo, hashes):
-    src = (repo / F_TCP).read_text()
-    tree = ast.parse(src)
+    src, tree = parse_file(repo, F_TCP)
     mconst = {}
     for st in tree.body:
         if isinstance(st, ast.Assign) and len(st.targets) == 1 and isinstance(st.targets[0], ast.Name) \
@@ -443,7 +443,7 @@ def wire_schema(repo, hashes):
         raise TieBroken("_split_plaintext: shape changed")
     # BoboDevice.__init__ rejects a urn / id_key containing a space (hypothesis of header_roundtrip)
     dsrc = (repo / F_DEVICE).read_text()
-    dinit = find_func(find_class(ast.parse(dsrc), 'BoboDevice'), '__init__')
+    dinit = find_func(find_class(norm_parse(dsrc, str(F_DEVICE)), 'BoboDevice'), '__init__')
     hashes[f'{F_DEVICE}::BoboDevice.__init__'] = sha(ast.get_source_segment(dsrc, dinit))
     dbody = strip_doc(dinit.body)
     nospace = {}
@@ -469,8 +469,7 @@ def wire_schema(repo, hashes):
 
 def translate(repo):
     hashes = {}
-    base_src = (repo / F_EVENT).read_text()
-    base_tree = ast.parse(base_src)
+    base_src, base_tree = parse_file(repo, F_EVENT)
     hashes[f'{F_EVENT}::BoboEvent'] = sha(ast.get_source_segment(base_src, find_class(base_tree, 'BoboEvent')))
     schemas = {}
     tags = {'BoboEvent': consts_of(find_class(base_tree, 'BoboEvent'))}
@@ -478,8 +477,7 @@ def translate(repo):
                                   ('simple', F_SIMPLE, 'BoboEventSimple', base_tree),
                                   ('complex', F_COMPLEX, 'BoboEventComplex', base_tree),
                                   ('action', F_ACTION, 'BoboEventAction', base_tree)):
-        src = (repo / path).read_text()
-        tree = ast.parse(src)
+        src, tree = parse_file(repo, path)
         hashes[f'{path}::{cls}.__init__'] = sha(ast.get_source_segment(src, find_func(find_class(tree, cls), '__init__')))
         schemas[name], consts = object_schema(src, tree, cls, base, hashes, path)
         tags[cls] = consts
